@@ -200,14 +200,16 @@ DRV_CMD(wr_dyn, "wr.dyn") {
   return out;
 }
 
-// wr.prefixed <width> <n> : Write<uintW_t>(std::string(n,'x')) into a growing writer; refusal must write nothing
+// wr.prefixed <width> <n> <signed> : Write<uintW_t>(std::string(n,'x')) into a growing writer; refusal must write nothing
 DRV_CMD(wr_prefixed, "wr.prefixed") {
-  uint64_t w = toU64(need(a,0)), n = toU64(need(a,1));
+  uint64_t w = toU64(need(a,0)), n = toU64(need(a,1)); bool sg = toU64(need(a,2)) != 0;
   std::string payload(n, 'x');
   DynamicMemoryWriter dw;
   try {
-    switch (w) { case 1: dw.Write<uint8_t>(payload); break; case 2: dw.Write<uint16_t>(payload); break;
+    if (!sg) switch (w) { case 1: dw.Write<uint8_t>(payload); break; case 2: dw.Write<uint16_t>(payload); break;
       case 4: dw.Write<uint32_t>(payload); break; case 8: dw.Write<uint64_t>(payload); break; default: throw BadOp(); }
+    else switch (w) { case 1: dw.Write<int8_t>(payload); break; case 2: dw.Write<int16_t>(payload); break;
+      case 4: dw.Write<int32_t>(payload); break; case 8: dw.Write<int64_t>(payload); break; default: throw BadOp(); }
   } catch (const BadOp&) { throw; }
   catch (const std::exception&) { return "err:" + std::to_string(dw.Length()); }
   auto rd = dw.GetReader(); std::string c(static_cast<std::size_t>(rd.Length()), '\0'); rd.Read(&c[0], c.size());
